@@ -8,7 +8,7 @@ from vlib.runner import Violation, hyp_run
 
 PROPERTY = "C03"
 LEVEL = "exploration"
-RULE = ("Hypothesis draws a user table (6 shapes: anonymous present/absent/with a password, 1-3 named users with/without password, "
+RULE = ("Hypothesis draws a user table (7 shapes: anonymous present/absent/with a password, no user at all, 1-3 named users with/without password, "
         "distinct home directories), a backend and an abstract program (auth-heavy profile: USER with known / unknown / "
         "password-less / protected names, PASS right / wrong / empty / out of sequence, interleaved with all other "
         "verbs), concretised against the auth automaton of the reference model and run on simnet against a server "
@@ -34,6 +34,8 @@ TABLES = [
     [dict(login="nop", password=None, home="/hc", perms=P), dict(login="bob", password="", home="/hb", perms=P)],
     # the anonymous entry (login None: answers to 'anonymous' and to every unknown name) has a password of its own
     [dict(login=None, password="gate", home="/", perms=P), dict(login="bob", password="pw", home="/hb", perms=P)],
+    # a table without any user: nobody is a "known user"
+    [],
 ]
 NAMES = ["anonymous", "bob", "nop", "zed", "carol", "alice", "", "BOB", " bob"]
 PWS = ["pw", "other", "secret", "bad", "", "PW", " pw", "pw x", "gate"]
